@@ -1,8 +1,9 @@
 import JadeModel.Proofs.SystemUniqueA
-import JadeModel.Proofs.SystemUniqueBDefs
 import JadeModel.Proofs.SystemUniqueBStepA
 import JadeModel.Proofs.SystemUniqueBStepB
 import JadeModel.Proofs.SystemUniqueBStepC
+import JadeModel.Proofs.SystemUniqueBStepD
+import JadeModel.Proofs.SystemUniqueBStepE
 
 set_option linter.unusedSimpArgs false
 
@@ -12,9 +13,11 @@ namespace Jade.Sys
 
 theorem plainB_step {s s' : Sys} {op : Op} (hn : NodeInv s) (ha : PlainA s) (hi : PlainB s)
     (h : step s op = some s') (hf : op.risky = false) : PlainB s' := by
-  obtain ⟨c_locAhead, c_cancelDone⟩ := plainB_step_a hn ha hi h hf
-  obtain ⟨c_cancelNoBatch, c_cancelNodup⟩ := plainB_step_b hn ha hi h hf
-  have c_rowKnown := plainB_step_c hn ha hi h hf
+  have c_locAhead := plainB_step_a hn ha hi h hf
+  have c_cancelDone := plainB_step_b hn ha hi h hf
+  have c_cancelNoBatch := plainB_step_c hn ha hi h hf
+  have c_cancelNodup := plainB_step_d hn ha hi h hf
+  have c_rowKnown := plainB_step_e hn ha hi h hf
   exact ⟨c_locAhead, c_cancelDone, c_cancelNoBatch, c_cancelNodup, c_rowKnown⟩
 
 end Jade.Sys
